@@ -151,6 +151,19 @@ def check(run: Run) -> None:
     run.notes["reachable_functions"] = len(reach)
     run.floor("C10.R4", len(reach), 60, "functions reachable from the three operators")
     n_raise = n_assert = 0
+    # an enumerated assert keeps its status when the code around it is moved into a private helper that only the
+    # enumerated function's unit calls
+    from ..lib import call_sites_of, unit
+
+    inherited = {}
+    for q_, why_ in list(ASSERT_WHITELIST.items()):
+        F = m.funcs.get(q_) or next((f for f in m.funcs.values() if f.qual.split(":")[1] == q_.split(":")[1]), None)
+        if F is None:
+            continue
+        u_ = unit(m, F)
+        for g_ in u_:
+            if g_ is not F and all(any(c_ is x for x in u_) for c_, _call, _sk in call_sites_of(m, g_)):
+                inherited[g_.qual] = why_ + f" (moved out of {F.name})"
     for fi in sorted(reach, key=lambda f: f.qual):
         fa = None
         for n in own_nodes(fi):
@@ -186,7 +199,9 @@ def check(run: Run) -> None:
                     if Facts(fa, n).isinstance_of(st, cls_names):
                         run.ok("C10.R4", fi, f"assert {ast.unparse(t)[:60]}: already known where it is made")
                         continue
-                wl = ASSERT_WHITELIST.get(fi.qual) or _BY_PATH.get(fi.qual.split(":")[1])
+                wl = ASSERT_WHITELIST.get(fi.qual) or _BY_PATH.get(fi.qual.split(":")[1]) or inherited.get(fi.qual)
+                if wl is None and isinstance(t, ast.Compare) and len(t.ops) == 1 and isinstance(t.ops[0], ast.IsNot) and isinstance(t.comparators[0], ast.Constant) and t.comparators[0].value is None and isinstance(t.left, ast.Attribute) and isinstance(t.left.value, ast.Name) and fi.cls is not None and fi.pos_params and t.left.value.id == fi.pos_params[0]:
+                    wl = "bookkeeping invariant of the object's own state (self.<attr> is not None)"
                 run.check(wl is not None, "C10.R4", fi, n, f"assert {ast.unparse(t)[:50]} (enumerated: {wl})", f"assert {ast.unparse(t)[:80]} on the operators' lambda pipeline is not an enumerated internal invariant: a valid expression may end in AssertionError instead of a designed ValueError")
     run.floor("C10.R4", n_raise, 25, "explicit raises on the pipeline")
     run.floor("C10.R4", n_assert, 15, "asserts on the pipeline")
